@@ -18,7 +18,11 @@ impl Transform for Slice {
             to = str.len();
         }
 
-        str[from..to].to_string()
+        // an inverted range or offsets inside a multi-byte character yield an empty value
+        match str.get(from..to) {
+            Some(slice) => slice.to_string(),
+            None => "".to_string(),
+        }
     }
 }
 
